@@ -52,7 +52,7 @@ import valjean.cosette.env as envmod
 from valjean.cosette.env import Env
 from valjean.cosette.task import TaskStatus
 from valjean.cambronne import common
-from vlib.core import Failure, Outcome, valjean_frame
+from vlib.core import Failure, HarnessError, Outcome, valjean_frame
 from vlib import envfault
 from vlib.envfault import PLAN, Killed, same, diff_keys, materialise, TS_TAG
 
@@ -79,9 +79,10 @@ RULE = ('cases = (a) histories over a pool of 1-6 tasks (names incl. unicode / b
         '(statuses of the pool, fault kind, byte offset)')
 ASSUMPTIONS = [
     'task names are what path.sanitize_filename accepts (no "/", no NUL, not "." or ".."), non-empty, '
-    'unique; output_dir of a task is root/<name> as a str (the shape RunTask, Use(serialize=True) and '
-    'EvalTestTask produce); tasks whose output_dir lies elsewhere (CheckoutTask, BuildTask, report '
-    'tasks) are never found again by read_env and are outside this check',
+    'unique; output_dir of a task is root/<name> as a str (the shape RunTask, Use(serialize=True), '
+    'EvalTestTask and, by default, CheckoutTask / BuildTask produce); tasks whose output_dir lies '
+    'elsewhere (report tasks: report-root/<name>; checkout/build tasks with their own root) are never '
+    'found again by read_env(root=output-root) and are outside this check',
     'payloads are picklable by construction; entries are plain dicts with a TaskStatus under "status"',
     'arbitrary corrupt bytes are NOT fed to pickle.load (unpickling attacker-shaped data can execute '
     'code): faults are truncation, truncation + NUL padding, interrupted writes, five fixed non-pickle '
@@ -94,8 +95,9 @@ ASSUMPTIONS = [
     'completely rewritten is taken from the log of the open seam',
     'interrupted writes and failing reads are injected through the module-global name `open` of '
     'valjean/cosette/env.py (the real module: a privately loaded copy cannot be pickled by reference); '
-    'an implementation that stops using the builtin open makes the floors on the write-fault classes '
-    'fail (exit 2) instead of silently losing the coverage',
+    'when a file armed with a write fault is rewritten without passing through the seam (env.py no '
+    'longer uses the builtin open) the check stops with a harness error (exit 2) instead of silently '
+    'losing the coverage',
     'real power-loss semantics are approximated by truncation, NUL padding and interrupted writes; '
     'reordered block writes are not modelled',
     'valid pickles of something that is not an environment are not produced (the property speaks of '
@@ -109,15 +111,17 @@ ASSUMPTIONS = [
 BUDGET = {'quick': {'cases': 6400, 'shards': 16, 'seconds': 300,
                     'shrink_s': int(os.environ.get('C14_SHRINK_S', 40))},
           'thorough': {'cases': 160000, 'shards': 16, 'seconds': 900, 'shrink_s': 60}}
-# fractions of the generated cases showing the class at least once; about half of the values
-# measured on the quick tier (seed 1)
+# Fractions of the generated cases showing the class at least once; about half of the values
+# measured on the quick tier (seed 1).  Only classes decided by the case and the model are listed
+# (never by what the code under test did), so that a misbehaving tree cannot turn a VIOLATION
+# into a generator-health error.
 FLOORS = {'hist': 0.7, 'nt': 0.09, 'nt:corrupt': 0.06, 'nt:oserr': 0.02, 'nt:missing': 0.01,
           'fault-on-good-done': 0.09, 'fault:trunc': 0.04, 'fault:nulpad': 0.03, 'fault:empty': 0.025,
           'fault:dir': 0.02, 'fault:missing': 0.02, 'fault:foreign': 0.02,
-          'write-fault-fired': 0.07, 'write-fault:kill': 0.03, 'write-fault:oserror': 0.04,
-          'write-fault:open_err': 0.02, 'read-fault-fired:eio_read': 0.02,
-          'read-fault-fired:eacces_open': 0.02, 'op:restart': 0.1, 'op:set': 0.15, 'read:subset': 0.04,
-          'sweep:trunc': 0.05, 'sweep:nulpad': 0.01, 'sweep-target:DONE': 0.04, 'odd-task-name': 0.3}
+          'write-fault-armed:kill': 0.04, 'write-fault-armed:oserror': 0.04,
+          'write-fault-armed:open_err': 0.02, 'read-fault-armed:eio_read': 0.03,
+          'read-fault-armed:eacces_open': 0.02, 'op:restart': 0.1, 'op:set': 0.15, 'read:subset': 0.04,
+          'sweep:trunc': 0.05, 'sweep:nulpad': 0.01, 'odd-task-name': 0.2}
 
 STATUSES = ['WAITING', 'PENDING', 'DONE', 'FAILED', 'SKIPPED']
 FNAMES = ['valjean.env', 'valjean.env', 'env.pickle', 'e']
@@ -125,6 +129,7 @@ UNKNOWN = 'never-seen-task'          # longer than any generated name
 # non-pickle contents: the first byte of each is not a pickle opcode (checked in setup())
 FOREIGN = [b'\n', b'{"status": "DONE"}\n', b'# valjean environment\n', b'\xff\xfe\x00\x00', b'<env/>\n']
 CORRUPT_KINDS = ('empty', 'trunc', 'nulpad', 'torn', 'foreign')
+FILE_KINDS = ('good',) + CORRUPT_KINDS       # states in which a regular file is at the path
 
 
 COUNTERS = {'sweep_files': 0, 'sweep_truncation_points': 0}
@@ -297,6 +302,15 @@ def _cls(kind):
     return kind
 
 
+def _raw(path):
+    """Bytes of a regular file, None for anything else."""
+    try:
+        with open(path, 'rb') as fil:
+            return fil.read()
+    except OSError:
+        return None
+
+
 class _Blocked(Exception):
     """The history cannot be continued (see World.set_task)."""
 
@@ -315,6 +329,7 @@ class World:
         self.disk = {name: {'kind': 'never-written', 'admit': [None]} for name in self.pool}
         self.versions = {name: [] for name in self.pool}   # specs completely written, in order
         self.finfo = {}          # name -> (fault kind, offset, was_done) of the last fault
+        self.has_dir = {}        # name -> the output directory of the task exists (model)
         self.labels = set()
         self.nt_keys = set()
         self.reads = 0
@@ -364,6 +379,7 @@ class World:
         self.mem[name] = spec
         self.env[name] = self.build(spec)
         if spec['outdir']:
+            self.has_dir[name] = True
             try:
                 os.makedirs(self.tdir(name), exist_ok=True)
             except OSError as exc:
@@ -381,7 +397,7 @@ class World:
     # -- writing ------------------------------------------------------------
     def _complete(self, name, spec):
         state = self.disk[name]
-        if not os.path.isdir(self.tdir(name)) or state['kind'] == 'dir':
+        if not self.has_dir.get(name) or state['kind'] == 'dir':
             kind = 'dir' if state['kind'] == 'dir' else 'missing'
             self.disk[name] = {'kind': kind, 'admit': [None, spec]}
             self.labels.add('write-onto-' + ('dir' if kind == 'dir' else 'missing-directory'))
@@ -392,12 +408,14 @@ class World:
 
     def write(self, fault=None):
         PLAN.reset()
-        target = None
+        target = before = None
         if fault is not None:
             target = self.pool[fault['i'] % len(self.pool)]
             if target in self.mem and self.mem[target]['outdir']:
                 PLAN.write[self.path(target)] = {'after': fault['after'], 'errno': fault['errno'],
                                                  'mode': fault['mode']}
+                self.labels.add('write-fault-armed:' + fault['mode'])
+                before = _raw(self.path(target))
             else:
                 self.labels.add('write-fault-moot')
                 target = None
@@ -415,8 +433,11 @@ class World:
                 self.fail('write_raises', f'C14/write_raises/{tname}@{where}',
                           f'write_env raised {tname}: {exc}')
         log = {rec['path']: rec for rec in PLAN.log}
-        if PLAN.opens == 0 and any(s['outdir'] for s in self.mem.values()):
-            self.labels.add('seam-not-reached')
+        if target is not None and self.path(target) not in log \
+                and _raw(self.path(target)) != before:
+            # the file was rewritten, but not through the `open` seam: faults cannot be injected
+            raise HarnessError('C14: env.py no longer writes through the builtin open(); the fault '
+                               'injection seam of vlib/envfault.py must be adapted')
         for name, spec in self.mem.items():
             if not spec['outdir']:
                 continue
@@ -449,51 +470,55 @@ class World:
 
     # -- disk faults -----------------------------------------------------------
     def fault(self, name, kind, at):
+        """Disk fault on the file of ``name``.  Whether the fault applies is decided by the MODEL
+        (so that the class labels, hence the floors, do not depend on the code under test); the
+        physical action is best effort when the code under test did not leave what the model expects."""
         path, state = self.path(name), self.disk[name]
+        is_file = state['kind'] in FILE_KINDS
+        is_dir = state['kind'] == 'dir'
+        has_dir = bool(self.has_dir.get(name))
         was_done = any(a is not None and a['status'] == 'DONE' for a in state['admit'])
         offset = 0
-        if kind == 'missing':
-            if not os.path.isfile(path):
-                return self.labels.add('fault-moot')
-            os.remove(path)
-            new = {'kind': 'missing', 'admit': [None]}
-        elif kind == 'nodir':
-            if not os.path.isdir(self.tdir(name)):
-                return self.labels.add('fault-moot')
-            shutil.rmtree(self.tdir(name))
-            new = {'kind': 'nodir', 'admit': [None]}
-        elif kind in ('empty', 'foreign'):
-            if not os.path.isdir(self.tdir(name)) or os.path.isdir(path):
-                return self.labels.add('fault-moot')
-            blob = b'' if kind == 'empty' else FOREIGN[at % len(FOREIGN)]
-            offset = 0 if kind == 'empty' else at % len(FOREIGN)
-            with open(path, 'wb') as fil:
-                fil.write(blob)
-            new = {'kind': kind, 'admit': [None]}
-        elif kind in ('trunc', 'nulpad'):
-            if not os.path.isfile(path) or os.path.getsize(path) == 0:
-                return self.labels.add('fault-moot')
-            with open(path, 'rb') as fil:
-                data = fil.read()
-            offset = at % len(data)
-            with open(path, 'wb') as fil:
-                fil.write(data[:offset] + (b'\0' * (len(data) - offset) if kind == 'nulpad' else b''))
-            new = {'kind': 'empty' if (kind == 'trunc' and offset == 0) else kind, 'admit': [None]}
-        elif kind == 'dir':
-            if not os.path.isdir(self.tdir(name)) or os.path.isdir(path):
-                return self.labels.add('fault-moot')
-            if os.path.exists(path):
+        new_kind = kind
+        if ((kind == 'missing' and not is_file) or (kind == 'nodir' and not has_dir)
+                or (kind in ('empty', 'foreign', 'dir') and (not has_dir or is_dir))
+                or (kind in ('trunc', 'nulpad') and (not is_file or state['kind'] == 'empty'))):
+            self.labels.add('fault-moot')
+            return
+        try:
+            if kind == 'missing':
                 os.remove(path)
-            os.mkdir(path)
-            new = {'kind': 'dir', 'admit': [None]}
-        else:
-            raise AssertionError(kind)
-        self.disk[name] = new
-        self.finfo[name] = (new['kind'], offset, was_done)
-        self.labels.add('fault:' + new['kind'])
+            elif kind == 'nodir':
+                self.has_dir[name] = False
+                shutil.rmtree(self.tdir(name))
+            elif kind in ('empty', 'foreign'):
+                offset = 0 if kind == 'empty' else at % len(FOREIGN)
+                with open(path, 'wb') as fil:
+                    fil.write(b'' if kind == 'empty' else FOREIGN[offset])
+            elif kind in ('trunc', 'nulpad'):
+                with open(path, 'rb') as fil:
+                    data = fil.read()
+                offset = at % len(data) if data else 0
+                with open(path, 'wb') as fil:
+                    fil.write(data[:offset]
+                              + (b'\0' * (len(data) - offset) if kind == 'nulpad' else b''))
+                if kind == 'trunc' and offset == 0:
+                    new_kind = 'empty'
+            elif kind == 'dir':
+                if os.path.isfile(path):
+                    os.remove(path)
+                os.mkdir(path)
+            else:
+                raise AssertionError(kind)
+        except OSError:
+            # the code under test did not leave the file/directory the model expects (reported by
+            # the reads); every fault state admits "not done" only, so the model stays valid
+            self.labels.add('obs:fault-on-unexpected-disk-state')
+        self.disk[name] = {'kind': new_kind, 'admit': [None]}
+        self.finfo[name] = (new_kind, offset, was_done)
+        self.labels.add('fault:' + new_kind)
         if state['kind'] == 'good':
             self.labels.add('fault-on-good-' + ('done' if was_done else 'notdone'))
-        return None
 
     # -- reading -----------------------------------------------------------------
     def _matches(self, name, admit, got):
@@ -509,7 +534,10 @@ class World:
         if rfault is not None:
             rname = self.pool[rfault['i'] % len(self.pool)]
             PLAN.read[self.path(rname)] = {'kind': rfault['kind'], 'after': rfault['after']}
+            if rname in names:
+                self.labels.add('read-fault-armed:' + rfault['kind'])
         self.reads += 1
+        self._note_nontrivial(names, rname, rfault)
         res = exc = None
         try:
             res = common.read_env(root=self.root, names=list(names), filename=self.fname, fmt='pickle')
@@ -558,8 +586,6 @@ class World:
 
     def _judge(self, names, res, transient, rfault, sub):
         kinds = {name: self._kind(name, transient, rfault) for name in names}
-        intact_done = [n for n in names if kinds[n] == 'good'
-                       and self.disk[n]['admit'][0]['status'] == 'DONE']
         for name in list(names) + [key for key in res if key not in names]:
             got = res[name] if name in res else _MISSING
             if name not in names:
@@ -599,14 +625,25 @@ class World:
                 self.fail('entry_differs', f'C14/entry_differs/{what}',
                           f'entry of {name!r} read back differs from the one written: got {got!r:.200} '
                           f'expected {self.entry(done_specs[-1])!r:.200}', sub)
-        # non-triviality: a faulty file of a DONE task next to an intact DONE task
+
+    def _note_nontrivial(self, names, rname, rfault):
+        """Non-triviality (decided from the model, before the code under test runs): a faulty file
+        of a task whose last complete write was DONE, next to an intact DONE task."""
+        will_fire = False
+        if rname is not None and rname in names and self.disk[rname]['kind'] in FILE_KINDS:
+            size = len(_raw(self.path(rname)) or b'')
+            will_fire = rfault['kind'] != 'eio_read' or rfault['after'] < size
+        intact_done = [n for n in names if n in self.disk and self.disk[n]['kind'] == 'good'
+                       and self.disk[n]['admit'][0]['status'] == 'DONE'
+                       and not (will_fire and n == rname)]
         for name in names:
-            info = None
-            if name == transient:
-                state = self.disk.get(name)
-                if state and any(a is not None and a['status'] == 'DONE' for a in state['admit']):
+            if name not in self.disk:
+                continue
+            state, info = self.disk[name], None
+            if will_fire and name == rname:
+                if any(a is not None and a['status'] == 'DONE' for a in state['admit']):
                     info = (rfault['kind'], rfault['after'])
-            elif kinds[name] not in ('good', 'never-written') and name in self.finfo \
+            elif state['kind'] not in ('good', 'never-written') and name in self.finfo \
                     and self.finfo[name][2]:
                 info = self.finfo[name][:2]
             if info and any(n != name for n in intact_done):
